@@ -172,6 +172,22 @@ def rule_fanout(ctx, R):
                                    (a, bb_))
                     has_tr = any(x.has_place(root=('param', 2)) and x.has_call('len') for x in (a, bb_))
                     ok = ok or (has_exec and has_tr)
+                if not ok and e.kind == 'const' and e.const_value() in ('0', 0):
+                    # explicit fast path for an empty batch: 0 == executors.len() * 0 exactly when `tracks` is empty
+                    from lib import path_conditions as _pc
+                    for cnd in _pc(b, c.bb):
+                        if cnd.kind != 'bool' or cnd.truth is None:
+                            continue
+                        x = cnd.expr
+                        if cnd.truth and x.kind == 'call' and x.name.rsplit('::', 1)[-1] == 'is_empty' and \
+                                x.has_place(root=('param', 2)):
+                            ok = True
+                        cm = cnd.cmp()
+                        if cm and cm[0] == 'Eq':
+                            for a_, b__ in ((cm[1], cm[2]), (cm[2], cm[1])):
+                                if a_.has_call('len') and a_.has_place(root=('param', 2)) and b__.kind == 'const' and \
+                                        b__.const_value() in ('0', 0):
+                                    ok = True
                 n += 1
                 ctx.check(ok, R, b, 'expected-count:' + ctor.rsplit('::', 1)[-1],
                           'count = %r' % e, 'the number of expected responses %r is not executors.len() * '
